@@ -56,7 +56,8 @@ def handle (line : String) : String :=
     let es := rest.takeWhile (· ≠ "?")
     let qs := (rest.dropWhile (· ≠ "?")).drop 1
     match allSome (es.map parseEntry), allSome (qs.map parseName) with
-    | some entries, some queries =>
+    | some headers, some queries =>
+      let entries := dictOf headers        -- the headers may repeat a name
       let files := getFiles entries
       s!"files={showList (files.map showName)} dex={showList ((dexNames files).map showName)} " ++
       s!"multi={bit (isMultidex files)} all={showList ((getAllDex entries).map showRes)} " ++
